@@ -5,3 +5,4 @@ import AnnVerif.Props.C15
 import AnnVerif.Props.C16
 import AnnVerif.Props.C14
 import AnnVerif.Props.C03
+import AnnVerif.Props.C18
